@@ -138,7 +138,20 @@ func TestVerifBabeMath(t *testing.T) {
 				}
 				var idx uint32
 				var cerr error
-				pm := vTry(func() { idx, cerr = getSecondarySlotAuthor(slot, o.N, rnd) })
+				pm := vTry(func() {
+					// the author is a FUNCTION of (randomness, slot, n): first ask for the same slot and
+					// authority count under another randomness (another fork's epoch), then for the case
+					// itself, twice; what is logged for TLC is the last answer, and the two must agree
+					other := rnd
+					other[0] ^= 0x5a
+					other[31] ^= 0xa5
+					_, _ = getSecondarySlotAuthor(slot, o.N, other)
+					first, e1 := getSecondarySlotAuthor(slot, o.N, rnd)
+					idx, cerr = getSecondarySlotAuthor(slot, o.N, rnd)
+					if (e1 == nil) != (cerr == nil) || first != idx {
+						res.Fail(b.ID, si, "SecondaryAuthor", "repeat", fmt.Sprint(first, e1), fmt.Sprint(idx, cerr), "C25/SecondaryAuthor/not-a-function-of-its-arguments", nil)
+					}
+				})
 				res.Case("sec", fmt.Sprintf("%x/%d/%d", o.Rnd.Bytes()[:4], slot, o.N))
 				res.Cmp()
 				if pm != "" || cerr != nil {
